@@ -1942,3 +1942,116 @@ Proof.
   - unfold rem, tailb, reader_dec, bytes_dec. cbn [d_buf d_script d_bytesdec app]. rewrite app_nil_r. reflexivity.
 Qed.
 Print Assumptions C18_cbor_reader_as_bytes_partial.
+
+(* ---------- Next never panics and never runs out of fuel ---------- *)
+From SF Require Cbor.ParseSafety.
+Definition SInv := ParseSafety.Inv.
+
+Definition script_bytes (sc : list (bytes * Z)) : bool := forallb (fun x => all_bytes (fst x)) sc.
+
+Definition tpost (d d' : cdecoder) (e : Z) : Prop :=
+  e = nilE -> SInv (d_p d') /\ all_bytes (d_buf d') = true /\ script_bytes (d_script d') = true /\
+              (length (d_script d') <= length (d_script d))%nat.
+
+(* number of iterations Next can still make *)
+Definition dmeasure (d : cdecoder) : nat :=
+  (length (d_script d) + (if (zlen (d_buf d) =? 0)%Z then 0 else 1))%nat.
+
+Lemma dec_body_total : forall f,
+  (forall d s, SInv (d_p d) -> all_bytes (d_buf d) = true -> script_bytes (d_script d) = true ->
+     (dmeasure d < f)%nat -> exists d' s' e, dec_next f d s = Ok (d', s', e) /\ tpost d d' e) ->
+  forall d1 s, SInv (d_p d1) -> all_bytes (d_buf d1) = true -> script_bytes (d_script d1) = true ->
+     d_buf d1 <> [] -> (length (d_script d1) < f)%nat ->
+     exists d' s' e, dec_body f d1 s = Ok (d', s', e) /\ tpost d1 d' e.
+Proof.
+  intros f IH d1 s HI Hb Hs Hne Hm.
+  destruct (ParseSafety.feed_until_ok (feed_fuel (d_buf d1)) (d_p d1) s (d_buf d1) HI Hb (or_introl Hne))
+    as (p1 & s1 & rest & d & e & Hf & _ & Hrest & Hpost).
+  { pose proof (ParseSafety.rank_le1 (d_p d1)). unfold feed_fuel. lia. }
+  unfold dec_body. rewrite Hf.
+  destruct (isnil e) eqn:Ee; cbn [negb].
+  - apply isnil_true in Ee. subst e. destruct (Hpost eq_refl) as (HI1 & _ & _).
+    destruct d.
+    + do 3 eexists. split; [reflexivity|]. intros _. cbn [d_p d_buf d_script]. auto.
+    + apply feed_until_RU in Hf. destruct (RU_short _ _ _ _ _ _ Hf) as [-> _].
+      destruct (IH {| d_p := p1; d_buf := []; d_script := d_script d1; d_bytesdec := d_bytesdec d1 |} s1)
+        as (d' & s' & e' & Hn & Hp); try assumption; try reflexivity.
+      { unfold dmeasure. cbn [d_buf d_script]. change (zlen (@nil Z) =? 0) with true. cbv iota. lia. }
+      exists d', s', e'. split; [exact Hn|]. exact Hp.
+  - do 3 eexists. split; [reflexivity|]. intros E. subst e. kill_nil.
+Qed.
+
+Lemma dec_next_total_m : forall fuel d s,
+  SInv (d_p d) -> all_bytes (d_buf d) = true -> script_bytes (d_script d) = true ->
+  (dmeasure d < fuel)%nat ->
+  exists d' s' e, dec_next fuel d s = Ok (d', s', e) /\ tpost d d' e.
+Proof.
+  induction fuel as [|f IH]; intros d s HI Hb Hs Hm; [lia|].
+  rewrite dec_next_S. unfold dec_fill.
+  assert (Hself : forall e, e <> nilE -> tpost d d e) by (intros e He E; congruence).
+  destruct (zlen (d_buf d) =? 0) eqn:Eb.
+  - destruct (d_bytesdec d).
+    { do 3 eexists. split; [reflexivity|]. apply Hself.
+      destruct (isnil (finalize (d_p d))) eqn:E; [discriminate|apply isnil_false; exact E]. }
+    destruct (d_script d) as [|[data err] rest] eqn:Esc.
+    { do 3 eexists. split; [reflexivity|]. apply Hself.
+      destruct (isnil (finalize (d_p d))) eqn:E; [discriminate|apply isnil_false; exact E]. }
+    cbv zeta.
+    destruct ((zlen data =? 0) && negb (err =? 0)) eqn:Ec.
+    { do 3 eexists. split; [reflexivity|]. apply Hself.
+      match goal with |- (if isnil ?x then _ else _) <> _ => destruct (isnil x) eqn:E end;
+        [discriminate|apply isnil_false; exact E]. }
+    unfold script_bytes in Hs. cbn [forallb fst] in Hs. apply andb_true_iff in Hs. destruct Hs as [Hd Hs].
+    unfold dmeasure in Hm. rewrite Esc, Eb in Hm. cbn [length] in Hm.
+    set (d1 := {| d_p := d_p d; d_buf := data; d_script := rest; d_bytesdec := false |}).
+    assert (Hw : forall d' e, tpost d1 d' e -> tpost d d' e).
+    { intros d' e P E. destruct (P E) as (A & B & C & D).
+      split; [exact A|]. split; [exact B|]. split; [exact C|].
+      rewrite Esc. subst d1. cbn [d_script length] in *. lia. }
+    destruct (zlen (d_buf d1) =? 0) eqn:Ed.
+    + destruct (IH d1 s HI Hd Hs) as (d' & s' & e & Hn & Hp).
+      { unfold dmeasure. rewrite Ed. unfold d1. cbn [d_script]. lia. }
+      exists d', s', e. split; [exact Hn|]. apply Hw. exact Hp.
+    + destruct (dec_body_total f IH d1 s HI Hd Hs) as (d' & s' & e & Hn & Hp).
+      { intros E. rewrite E in Ed. discriminate. }
+      { unfold d1. cbn [d_script]. lia. }
+      exists d', s', e. split; [exact Hn|]. apply Hw. exact Hp.
+  - rewrite Eb. unfold dmeasure in Hm. rewrite Eb in Hm.
+    apply (dec_body_total f IH d s HI Hb Hs).
+    + intros E. rewrite E in Eb. discriminate.
+    + lia.
+Qed.
+
+(* For every reader script whose data are bytes, and every visitor, Next
+   returns (no Panic, no OutOfFuel) as soon as its fuel exceeds the number of
+   reads plus one; after a nil verdict the decoder is again in such a state. *)
+Theorem C18_cbor_next_total : forall fuel d s,
+  SInv (d_p d) -> all_bytes (d_buf d) = true -> script_bytes (d_script d) = true ->
+  (length (d_script d) + 1 < fuel)%nat ->
+  exists d' s' e, dec_next fuel d s = Ok (d', s', e) /\
+    (e = nilE -> SInv (d_p d') /\ all_bytes (d_buf d') = true /\ script_bytes (d_script d') = true /\
+                 (length (d_script d') <= length (d_script d))%nat).
+Proof.
+  intros fuel d s HI Hb Hs Hm. apply dec_next_total_m; try assumption.
+  unfold dmeasure. destruct (zlen (d_buf d) =? 0); lia.
+Qed.
+Print Assumptions C18_cbor_next_total.
+
+Corollary C18_cbor_next_total_fresh : forall fuel sc s, script_bytes sc = true ->
+  (length sc + 1 < fuel)%nat ->
+  exists d' s' e, dec_next fuel (reader_dec sc) s = Ok (d', s', e).
+Proof.
+  intros fuel sc s Hs Hm.
+  destruct (C18_cbor_next_total fuel (reader_dec sc) s ParseSafety.Inv0 eq_refl Hs Hm) as (d' & s' & e & H & _).
+  eauto.
+Qed.
+
+Corollary C18_cbor_next_total_bytes : forall fuel b s, all_bytes b = true -> (1 < fuel)%nat ->
+  exists d' s' e, dec_next fuel (bytes_dec b) s = Ok (d', s', e).
+Proof.
+  intros fuel b s Hb Hm.
+  destruct (C18_cbor_next_total fuel (bytes_dec b) s ParseSafety.Inv0 Hb eq_refl Hm) as (d' & s' & e & H & _).
+  eauto.
+Qed.
+Print Assumptions C18_cbor_next_total_fresh.
+Print Assumptions C18_cbor_next_total_bytes.
